@@ -11,7 +11,7 @@ encoding is injective on strings because '~' only ever introduces an escape.
 
 def enc_char(c):
     o = ord(c)
-    if 32 <= o < 127 and c != "~":
+    if (32 <= o < 127 and c != "~") or c == "\t":
         return c
     return "~u%x;" % o
 
@@ -33,7 +33,7 @@ def ext_tables(chars):
     space = set()
     for c in sorted(set(chars)):
         t = enc_char(c)
-        if t == c and c != "~":
+        if t == c:
             continue
         lc = c.lower()
         if len(lc) != 1:
